@@ -345,13 +345,26 @@ func scenarios(cfg *mc.Config, emit func(mc.Scenario)) {
 	if thorough {
 		b = 3
 	}
-	for _, n := range []int{2, 3} {
-		n := n
-		bb := b
-		if n == 3 && !thorough {
-			bb = 1
-		}
-		emit(mc.Scenario{Name: fmt.Sprintf("concurrent/%d-clients", n), Bound: bb, Weight: 300, Run: func(c *mc.Ctx) {
+	type concT struct {
+		n     int
+		kinds []string
+		bound int
+		name  string
+	}
+	concs := []concT{{2, []string{"write", "read"}, b, "concurrent/2-clients"}, {3, []string{"write", "read"}, b, "concurrent/3-clients"},
+		// statement granularity inside the handshake functions of both roles:
+		// state shared between the connections of one factory shows here
+		{2, []string{"stmt"}, 1, "concurrent-stmt/2-clients"}}
+	if !thorough {
+		concs[1].bound = 1
+	} else {
+		concs[2].bound = 2
+	}
+	for _, cc := range concs {
+		n := cc.n
+		bb := cc.bound
+		kinds := cc.kinds
+		emit(mc.Scenario{Name: cc.name, Bound: bb, Weight: 300, Run: func(c *mc.Ctx) {
 			br := o4h.NewBridge(seed, "c02/0", 0, false)
 			rnd.Install(rnd.New(seed, "c02-real-conc"))
 			sf, err := br.ServerFactory()
@@ -366,13 +379,23 @@ func scenarios(cfg *mc.Config, emit func(mc.Scenario)) {
 				srvGot           []byte
 			}
 			ps := make([]*pair, n)
-			res := sched.Run(c, sched.Options{PreemptKinds: []string{"write", "read"}, NoEarlyTimers: true, MaxSteps: 3_000_000}, func() {
+			res := sched.Run(c, sched.Options{PreemptKinds: kinds, NoEarlyTimers: true, MaxSteps: 3_000_000}, func() {
 				s := sched.Cur()
 				for i := 0; i < n; i++ {
-					i := i
 					p := &pair{}
 					p.cw, p.sw = wire.Pipe(fmt.Sprintf("client%d", i), fmt.Sprintf("server%d", i))
 					ps[i] = p
+				}
+				// with statement granularity the clients come first: both
+				// requests are on the wire when the servers start, so that one
+				// preemption inside a handshake function lets the other
+				// server run its whole handshake in between
+				order := []string{"server", "client"}
+				if kinds[0] == "stmt" {
+					order = []string{"clients-first"}
+				}
+				spawnServer := func(i int) {
+					p := ps[i]
 					s.Spawn(fmt.Sprintf("server%d", i), func() {
 						var conn net.Conn
 						conn, p.wrapErr = sf.WrapConn(p.sw)
@@ -387,6 +410,9 @@ func scenarios(cfg *mc.Config, emit func(mc.Scenario)) {
 						p.srvGot = append([]byte{}, buf[:nr]...)
 						conn.Write(buf[:nr])
 					})
+				}
+				spawnClient := func(i int) {
+					p := ps[i]
 					s.Spawn(fmt.Sprintf("client%d", i), func() {
 						var conn net.Conn
 						conn, p.dialErr = o4h.Dial(br.ClientArgs("cert", sf), p.cw)
@@ -404,6 +430,19 @@ func scenarios(cfg *mc.Config, emit func(mc.Scenario)) {
 							}
 						}
 					})
+				}
+				if order[0] == "clients-first" {
+					for i := 0; i < n; i++ {
+						spawnClient(i)
+					}
+					for i := 0; i < n; i++ {
+						spawnServer(i)
+					}
+				} else {
+					for i := 0; i < n; i++ {
+						spawnServer(i)
+						spawnClient(i)
+					}
 				}
 			})
 			if len(res.Panics) > 0 {
